@@ -4,7 +4,7 @@
    No proofs. *)
 From Coq Require Import List Arith Bool ZArith QArith Qcanon.
 Import ListNotations.
-Require Import NV.C03.Model NV.C03.PtwBaseQ NV.C03.Gen_PtwQ.
+Require Import NV.C03.Model NV.C03.PtwBaseQ NV.C03.Gen_PtwQ NV.C03.Einsum.
 
 Definition lift (f : Q -> Q) (x : Qc) : Qc := Q2Qc (f (this x)).
 
@@ -81,3 +81,25 @@ Definition check_energy (wm : bool) (dims : list nat) (h : qenergy) (r : list (l
   | Some M, Some dm => eq4 (qdense_metric K (dimsq dims) M) dm
   | _, _ => false
   end.
+
+(* ---- MultiLinearEinsum ------------------------------------------------------------------------------------
+   operands in key_order; letters are numbers; dims: size of every letter; shapes: shape of every operand;
+   plain / linval: flat (row-major) value; jt[p][e]: Jacobian applied to the e-th basis tensor of operand p (flat);
+   ja[f][p]: adjoint applied to the f-th basis tensor of the target, component of operand p (flat). *)
+Definition qein := ein Qc (q 0 1) (q 1 1) Qcplus Qcmult.
+Definition qein_jac := ein_jac Qc (q 0 1) (q 1 1) Qcplus Qcmult.
+Definition check_einsum (iss : list (list nat)) (oss summed : list nat) (dims : list nat) (shapes : list (list nat))
+           (oshape : list nat) (ops : list (list Qc)) (plain linval : list Qc)
+           (jt ja : list (list (list Qc))) : bool :=
+  let dim := fun l => nth l dims 0%nat in
+  let T := map (fun p => of_flat Qc (q 0 1) (fst p) (snd p)) (combine shapes ops) in
+  let val := to_flat Qc oshape (qein iss oss summed dim T) in
+  let M := map (fun p => let sh := nth p shapes [] in
+                         map (fun e => to_flat Qc oshape (qein_jac iss oss summed dim T p (basis_t Qc (q 0 1) (q 1 1) sh e)))
+                             (seq 0 (size sh)))
+               (seq 0 (length shapes)) in
+  let MT := map (fun f => map (fun p => map (fun e => nth f (nth e (nth p M []) []) (q 0 1))
+                                            (seq 0 (size (nth p shapes []))))
+                              (seq 0 (length shapes)))
+                (seq 0 (size oshape)) in
+  eq1 val plain && eq1 val linval && eq3 M jt && eq3 MT ja.
